@@ -1,7 +1,7 @@
 (* Pat/StickySrc.v — the stickiness theorems of Pat/StickyProofs.v (property C09) restated for the __next__ bodies
    generated from the source text (Generated/TablesStep.v), through src_step_is of Pat/StepSrc.v.
    Lemmas only; the property theorems are in Props/C09Src.v. *)
-From Isobar Require Import Base.Prelude Pat.Val Pat.Syntax Pat.Step Pat.StepProofs Pat.IterProofs Pat.StickyProofs
+From Isobar Require Import Base.Prelude Pat.Val Pat.Syntax Pat.Step Pat.StepProofs Pat.IterProofs Pat.StickyProofs Pat.StickyConcat Pat.StickyProofs2
   Generated.TablesStep Pat.StepSrc.
 From Coq Require Import String QArith.
 Open Scope Z_scope.
@@ -50,5 +50,24 @@ Section StickySrc.
   Proof.
     intros Hns Hp H f2. rewrite src_step_is in H. apply src_quiet_is.
     exact (proj1 (fpat_quiet binop LMAX Hns f) p p' Hp H f2).
+  Qed.
+  (* PConcatenate.__next__ as written (try / next(self.inputs[self.pos]) / next(self)) *)
+  Theorem src_sticky_concatenate f l pos p' :
+    (forall o x y, binop o x y <> Stop) ->
+    Forall farg l ->
+    src_PConcatenate_next Val.binop (value binop LMAX) (anext binop LMAX) f (step binop LMAX) (AL l) pos = (Stop, p') ->
+    forall f2, src_quiet f2 p'.
+  Proof.
+    intros Hns Hl H f2. rewrite <- PConcatenate_next_src in H. apply src_quiet_is.
+    exact (concat_quiet binop LMAX Hns (S f) l pos p' Hl H f2).
+  Qed.
+  (* PArrayIndex.__next__ as written: once it has raised StopIteration the exhausted flag is set and no later call returns a value *)
+  Theorem src_arrayindex_sticky f l i e p' :
+    src_PArrayIndex_next Val.binop (value binop LMAX) (anext binop LMAX) f l i e = (Stop, p') ->
+    (exists l' i', p' = PArrayIndex l' i' true) /\ forall f2, src_quiet f2 p'.
+  Proof.
+    intro H. rewrite <- PArrayIndex_next_src in H.
+    destruct (arrayindex_stop binop LMAX _ _ _ _ _ H) as [l' [i' ->]].
+    split; [eauto|]. intro f2. apply src_quiet_is. apply arrayindex_exhausted_quiet.
   Qed.
 End StickySrc.
